@@ -41,6 +41,15 @@
   #define ASSERT(x) (static_cast<void>(0))
 #endif
 
+#if defined(PRIMESIEVE_VERIF)
+  // Verification hook H0 (see /verif/DESIGN.md): read access to
+  // class internals for the external correspondence harness.
+  struct primesieve_verif_probe;
+  #define PRIMESIEVE_VERIF_FRIEND friend struct ::primesieve_verif_probe;
+#else
+  #define PRIMESIEVE_VERIF_FRIEND
+#endif
+
 #if __has_attribute(always_inline)
   #define ALWAYS_INLINE __attribute__((always_inline)) inline
 #elif defined(_MSC_VER)
